@@ -546,3 +546,13 @@ func (w *World) TailOps(n int) []string {
 	}
 	return w.Ops
 }
+
+// CloneFor returns a world that drives st (typically a Copy of w.St) with its own PRNG and op
+// log; the name universe and keys are shared read-only.
+func (w *World) CloneFor(st *state.StateDB, r *rand.Rand) *World {
+	c := *w
+	c.St = st
+	c.R = r
+	c.Ops = nil
+	return &c
+}
